@@ -68,7 +68,7 @@ def dot_break(text):
 
 LAYOUTS = ["one-line", "args-on-lines", "keyword-form", "keyword-form-lines", "condition-multiline", "comments", "odd-comments", "trailing-comma-desc-kw",
            "no-description", "no-description-kw", "break-before-matmul", "break-before-matmul-tight", "break-before-dot",
-           "space-after-at", "parenthesised-decorator", "continuation-at-column-0"]
+           "space-after-at", "parenthesised-decorator", "continuation-at-column-0", "at-line-above-condition"]
 NO_DESCRIPTION = ("no-description", "no-description-kw")
 
 
@@ -129,6 +129,11 @@ def make_layout(kind):
         if kind == "continuation-at-column-0":
             # inside the parentheses a continuation line may start anywhere - also left of the decorator's own indentation
             return ["@icontract.%s(lambda %s:" % (deco, ", ".join(params)), "<<%s," % text, "<<  %r%s)" % (desc, extra)]
+        if kind == "at-line-above-condition":
+            # keyword form with the description first: one of ITS continuation lines starts with the operator `@` (it looks
+            # like the first line of a decorator), and so does a line of a multi-line string
+            return ["@icontract.%s(" % deco, "    description=MatStr(%r)" % desc, "    @ MatStr(''),",
+                    "    enabled=len(\"\"\"", "@see the documentation\"\"\") > 0,", "    condition=%s%s)" % (lam, extra)]
         if kind == "space-after-at":
             return ["@ icontract.%s(%s, %r%s)" % (deco, lam, desc, extra)]  # blanks after the `@` are legal
         if kind == "parenthesised-decorator":
